@@ -118,6 +118,11 @@ def gen_strings(rng, tier):
     # dotted-quad tails (known deviation D1) and near misses
     S6 += ["::ffff:1.2.3.4", "2001:db8::192.168.1.1 x", "1:2:3:4:5:6:1.2.3.4", "::1.2.3.4", "64:ff9b::192.0.2.33",
            "fe80::1%eth0 y", "fe80:%x", "fe80::%1", "1::2.x", "::ffff:0:1.2.3.4"]
+    # non-ASCII neighbours: only ASCII letters and digits glue a token to its surroundings
+    for a in ("10.11.12.13", "198.51.100.7"):
+        S4 += ["服务器" + a + "端口", "сервер" + a, "١" + a, a + "é", "ü" + a + " x", "²" + a, a + "٣", "_" + a + "_", "\u00a0" + a + "\u2003"]
+    for a in ("2001:db8:aa::17", "fe80::1"):
+        S6 += ["服务器" + a + "端口", "сервер" + a, "١" + a, a + "é", "ü" + a + " x", a + "٣", "_" + a + "_"]
     # realistic lines with several tokens
     words = ["ip", "address", "neighbor", "remote-as", "description", "v1.2.3.4.5", "1.2.3", "host11.22.33.44", "11.22.33.44.example.net",
              "255.255.255.0", "0.0.0.255", "10.1.1.1", "010.001.002.003", "300.1.1.1", "1.2.3.4/24", "1.2.3.4/999", "(1.2.3.4)", "1.2.3.4,5.6.7.8",
